@@ -53,6 +53,11 @@ def run(chk):
                 chk.notes.append("symgen: " + line[:300])
                 break
         proofs_ok = chk.compile_chain(["Gen_C05.v"], ["C05_lemmas.v"], "C05.v", timeout=900)
+    # ---- translator tie: create_spin_range as translated from the current source text (C05_code.v)
+    from runners.helpers_flow import run_helpers, TRUSTED as HTRUSTED
+    chk.assumptions += HTRUSTED
+    if not run_helpers(chk, "C05_code.v", {"create_spin_range"}):
+        proofs_ok = False
     n = 600 if chk.tier == "thorough" else 60
     rc, doc, out = chk.bridge_json("search_C05.py", [str(chk.seed), str(n)], timeout=2400)
     if doc is not None and not proofs_ok and not doc["failures"] and not raised and n < 600:
